@@ -116,7 +116,10 @@ func Verif_C15_Registry() {
 	var ref []verifRegEntry
 	for i := 0; i < nOps; i++ {
 		name := []string{"x", "y", "z"}[zv.Choose(fmt.Sprintf("op%d-name", i), 3)]
-		kind := zv.Choose(fmt.Sprintf("op%d-handler", i), 3) // 0 good, 1 wrong type, 2 nil
+		// 0 good, 1 wrong type, 2 nil, 3 a non-pointer value of the good type: its
+		// methods have pointer receivers, so the value itself does not implement the
+		// service interface (a real grpc.Server refuses it too)
+		kind := zv.Choose(fmt.Sprintf("op%d-handler", i), 4)
 		d := verifMkDesc(name, i)
 		var impl interface{}
 		switch kind {
@@ -124,6 +127,8 @@ func Verif_C15_Registry() {
 			impl = &verifSvcImpl{id: i}
 		case 1:
 			impl = &verifBadImpl{}
+		case 3:
+			impl = verifSvcImpl{id: i}
 		}
 		dup := verifFindRef(ref, name) != nil
 		panicked := verifTryRegister(m, d, impl)
